@@ -13,6 +13,8 @@
 #include <atomic>
 #include <chrono>
 #include <condition_variable>
+#include <iostream>
+#include <streambuf>
 #include <functional>
 #include <mutex>
 #include <poll.h>
@@ -45,6 +47,31 @@ struct Sched
     std::atomic<long> before_bestmove{0}, after_bestmove{0};
     std::atomic<long> events[verif::POINT_NUM];
 } S;
+
+// std::cout of the engine goes through this buffer (installed by the harness, not engine code): one write() per line to
+// fd 1, and - when armed - the thread that has just delivered a `bestmove` line is parked right AFTER the write returned,
+// i.e. exactly in the window in which a GUI answers with its next commands.
+struct LineBuf : std::streambuf
+{
+    std::string cur;
+    int_type overflow(int_type ch) override
+    {
+        if (ch == traits_type::eof()) return ch;
+        cur.push_back(char(ch));
+        if (ch == '\n') flush_line();
+        return ch;
+    }
+    std::streamsize xsputn(const char* p, std::streamsize n) override
+    {
+        for (std::streamsize i = 0; i < n; ++i) overflow(traits_type::to_int_type(p[i]));
+        return n;
+    }
+    int sync() override { return 0; }
+    void flush_line();
+} g_linebuf;
+
+bool g_stall_after_bestmove = false;  // guarded by S.m
+bool g_stalled = false, g_stall_release = false;
 
 void hook(verif::Point p, const verif::Ctx& c)
 {
@@ -82,6 +109,30 @@ void hook(verif::Point p, const verif::Ctx& c)
         S.cv.notify_all();
         S.cv.wait(l, [] { return S.release; });
         S.parked = false;
+    }
+}
+
+void LineBuf::flush_line()
+{
+    (void)!write(1, cur.data(), cur.size());
+    bool park = false;
+    if (cur.rfind("bestmove", 0) == 0)
+    {
+        std::lock_guard<std::mutex> l(S.m);
+        if (g_stall_after_bestmove)
+        {
+            g_stall_after_bestmove = false;
+            park = true;
+        }
+    }
+    cur.clear();
+    if (park)
+    {
+        std::unique_lock<std::mutex> l(S.m);
+        g_stalled = true;
+        S.cv.notify_all();
+        S.cv.wait(l, [] { return g_stall_release; });
+        g_stalled = false;
     }
 }
 
@@ -295,6 +346,161 @@ bool run_scenario(const Scenario& sc)
     return true;
 }
 
+// (A) the next `position` + `go` of the session are executed while the previous search thread is still between the delivery
+// of its bestmove line and its return: whatever it touches there must not belong to the Search object the new `go` replaced.
+bool run_nextgo(const std::string& fen, const std::string& go1, const std::string& next_pos, const std::string& go2)
+{
+    Seen seen;
+    vh::set_case_text(fen + " | " + go1 + " | next commands arrive right after the bestmove line was written");
+    {
+        std::lock_guard<std::mutex> l(S.m);
+        S.armed = false;
+        g_stall_after_bestmove = true;
+        g_stalled = false;
+        g_stall_release = false;
+    }
+    rec.evaluations++;
+    rec.count("scenarios");
+    gui_send("position fen " + fen);
+    gui_send(go1);
+    if (!wait_flag([] { return g_stalled; }, 90000))
+    {
+        rec.count("inconclusive:nextgo-never-stalled");
+        std::lock_guard<std::mutex> l(S.m);
+        g_stall_after_bestmove = false;
+        return false;
+    }
+    // the answer is out: a GUI may now continue
+    if (!gui_until(seen, [](const std::string& l) { return l.rfind("bestmove", 0) == 0; }, 10000)) rec.count("inconclusive:nextgo-bestmove-not-read");
+    long before;
+    {
+        std::lock_guard<std::mutex> l(S.m);
+        before = S.cmd_done;
+    }
+    gui_send(next_pos);
+    gui_send(go2);
+    bool done = wait_flag([before] { return S.cmd_done >= before + 2; }, 30000);
+    if (!done) rec.count("inconclusive:nextgo-commands-not-executed");
+    {
+        std::lock_guard<std::mutex> l(S.m);
+        g_stall_release = true;
+        S.cv.notify_all();
+    }
+    bool ok = gui_until(seen, [](const std::string& l) { return l.rfind("bestmove", 0) == 0; }, 60000);
+    if (!ok) rec.violation("no-bestmove@next-go-right-after-bestmove", vh::J().str("fen", fen).str("go", go1).str("then", next_pos + " ; " + go2).done());
+    rec.count("next-go-while-previous-search-thread-is-returning");
+    Seen tail;
+    bool alive = sync_ready(tail);
+    if (seen.bestmoves + tail.bestmoves != 2 && ok)
+        rec.violation("bestmove-count@next-go-right-after-bestmove", vh::J().str("fen", fen).num("bestmove_lines", seen.bestmoves + tail.bestmoves).done());
+    rec.nontrivial(vh::fnv("nextgo" + fen + go1 + go2));
+    return alive;
+}
+
+// (B) a board-changing command while a search is running must not stop the reader thread from answering isready / stop
+bool run_position_while_searching(const std::string& fen, long k, const std::string& cmd)
+{
+    Seen seen;
+    std::string ex = vh::J().str("fen", fen).str("go", "go infinite").num("parked_at_node_visit", k).str("command_sent_while_searching", cmd).done();
+    vh::set_case_text(fen + " | go infinite | " + cmd + " while the search is parked");
+    {
+        std::lock_guard<std::mutex> l(S.m);
+        S.park_point = verif::NODE;
+        S.park_arg = k;
+        S.armed = true;
+        S.parked = false;
+        S.release = false;
+        S.stop_done = false;
+    }
+    S.visits = 0;
+    S.after_release = 0;
+    S.released = false;
+    rec.evaluations++;
+    rec.count("scenarios");
+    gui_send("position fen " + fen);
+    gui_send("go infinite");
+    if (!wait_flag([] { return S.parked; }, 60000))
+    {
+        rec.count("point-not-reached:position-while-searching");
+        std::lock_guard<std::mutex> l(S.m);
+        S.armed = false;
+        gui_send("stop");
+        return false;
+    }
+    gui_send(cmd);
+    gui_send("isready");
+    bool got = gui_until(seen, [](const std::string& l) { return l == "readyok"; }, 20000);
+    rec.count("board-command-while-search-parked");
+    if (!got) rec.violation("no-readyok@search-running-after-board-command", ex);
+    gui_send("stop");
+    bool stopped = wait_flag([] { return S.stop_done; }, got ? 20000 : 3000);
+    if (!stopped) rec.violation("stop-command-not-executed@search-running-after-board-command", ex);
+    S.released = true;
+    {
+        std::lock_guard<std::mutex> l(S.m);
+        S.release = true;
+        S.cv.notify_all();
+    }
+    if (!stopped) return false;  // the reader thread is stuck: nothing more to learn from this process
+    bool ok = gui_until(seen, [](const std::string& l) { return l.rfind("bestmove", 0) == 0; }, 60000);
+    if (!ok)
+    {
+        rec.violation("no-bestmove@search-running-after-board-command", ex);
+        return false;
+    }
+    rec.nontrivial(vh::fnv("poswhile" + fen + cmd + std::to_string(k)));
+    return sync_ready(seen);
+}
+
+// (C) `go infinite` on a root whose search ends on its own (mate found, single legal move): a stop delivered around / after
+// that end must still be followed by exactly one bestmove
+bool run_infinite_selfending(const std::string& fen, bool stop_first)
+{
+    Seen seen;
+    std::string ex = vh::J().str("fen", fen).str("go", "go infinite").str("note", "the search ends on its own; stop delivered while the thread is about to answer / afterwards").done();
+    vh::set_case_text(fen + " | go infinite on a self-ending root");
+    {
+        std::lock_guard<std::mutex> l(S.m);
+        S.park_point = verif::BEFORE_BESTMOVE;
+        S.park_arg = -1;
+        S.armed = stop_first;
+        S.parked = false;
+        S.release = false;
+        S.stop_done = false;
+    }
+    S.released = false;
+    rec.evaluations++;
+    rec.count("scenarios");
+    rec.count("go-infinite-on-self-ending-root");
+    gui_send("position fen " + fen);
+    gui_send("go infinite");
+    bool parked = stop_first && wait_flag([] { return S.parked; }, 15000);
+    if (!stop_first) gui_until(seen, [](const std::string& l) { return l.rfind("bestmove", 0) == 0; }, 3000);  // it may answer before the stop: allowed
+    gui_send("stop");
+    wait_flag([] { return S.stop_done; }, 20000);
+    {
+        std::lock_guard<std::mutex> l(S.m);
+        S.armed = false;
+        S.release = true;
+        S.cv.notify_all();
+    }
+    (void)parked;
+    if (seen.bestmoves == 0 && !gui_until(seen, [](const std::string& l) { return l.rfind("bestmove", 0) == 0; }, 30000))
+    {
+        rec.violation("lost-stop@go-infinite-on-self-ending-root", ex);
+        return false;
+    }
+    Seen tail;
+    bool alive = sync_ready(tail);
+    for (int i = 0; i < 100 && S.after_bestmove.load() == 0; ++i) std::this_thread::sleep_for(std::chrono::milliseconds(5));
+    Seen tail2;
+    sync_ready(tail2);
+    if (seen.bestmoves + tail.bestmoves + tail2.bestmoves != 1)
+        rec.violation("second-bestmove@go-infinite-on-self-ending-root", ex);
+    rec.nontrivial(vh::fnv("selfend" + fen + (stop_first ? "1" : "0")));
+    return alive;
+}
+
 }  // namespace
 
 int main(int argc, char** argv)
@@ -316,6 +522,7 @@ int main(int argc, char** argv)
     for (auto& e : S.events) e = 0;
     glue::init_engine();
     verif::g_callback.store(hook);
+    std::cout.rdbuf(&g_linebuf);
     std::thread engine_thread([] {
         Uci uci;
         uci.loop();
@@ -369,10 +576,36 @@ int main(int argc, char** argv)
     add(verif::BEFORE_BESTMOVE, -1, true);
     add(verif::AFTER_BESTMOVE, -1, true);
     bool alive = true;
-    for (const Scenario& sc : all)
+    bool only_nextgo = args.has("only-nextgo");
+    if (!only_nextgo)
+        for (const Scenario& sc : all)
+        {
+            if (!alive) break;
+            alive = run_scenario(sc);
+        }
+    // the three extra families; each worker takes a slice
     {
-        if (!alive) break;
-        alive = run_scenario(sc);
+        static const char* G1[] = {"go depth 1", "go depth 2", "go depth 2 searchmoves e2e4 d2d4", "go nodes 2000", "go movetime 20"};
+        static const char* G2[] = {"go depth 1", "go depth 2", "go movetime 10"};
+        int fam = 0;
+        for (int g1 = 0; g1 < 5 && alive; ++g1)
+            for (int g2 = 0; g2 < 3 && alive; ++g2)
+                if (fam++ % workers == worker)
+                    alive = run_nextgo(ROOTS[0], G1[g1], "position startpos moves e2e4", G2[g2]) && alive;
+        if (!only_nextgo)
+        {
+            static const char* CMDS[] = {"position startpos", "position startpos moves e2e4 e7e5", "ucinewgame", "moves e2e4"};
+            for (int r = 0; r < 3 && alive; ++r)
+                for (int c = 0; c < 4 && alive; ++c)
+                    if (fam++ % workers == worker && !(c == 3 && r != 0))  // `moves e2e4` is only legal from the start position
+                        alive = run_position_while_searching(ROOTS[r], 500 + 977 * (r + c), CMDS[c]) && alive;
+            static const char* SELF[] = {"6k1/5ppp/8/8/8/8/8/1RK5 w - - 0 1", "k7/8/1K6/8/8/8/8/7R b - - 0 1", "7k/5Q2/5K2/8/8/8/8/8 w - - 0 1",
+                                         "r5k1/5ppp/8/8/8/8/1R6/1RK5 w - - 0 1"};
+            for (int r = 0; r < 4 && alive; ++r)
+                for (int sf = 0; sf < 2 && alive; ++sf)
+                    if (fam++ % workers == worker)
+                        alive = run_infinite_selfending(SELF[r], sf == 1) && alive;
+        }
     }
     if (!alive) rec.count("engine-unusable-after-violation");
     for (int p = 0; p < verif::POINT_NUM; ++p) rec.count(std::string("events:") + POINT_NAME[p], S.events[p].load());
